@@ -54,7 +54,52 @@ def C04_1(ctx, facts):
         ctx.undecided("HttpProtocol::multiplex|arms", "shape of multiplex() not recognised")
 
 
+def C04_2(ctx, facts):
+    """A healthy idle connection is not thrown away by a look-up: PoolInner::pop (run by every checkout) removes an origin's
+    idle list from the map only when that list is empty.  Decision table over (list empty after the pop?, what was popped):
+    whenever the list still holds connections, no removal of the list may happen."""
+    from core import AbsPaths
+    f = facts.unit(facts.fn("client::pool::PoolInner::pop"), expand=True)
+    ctx.touched(f)
+    IDLE_MAP = "HashMap<client::pool::key::Token, client::pool::idle::IdleConnections"
+    removals = []
+    for c in f.calls():
+        t0 = (c.t.get("argtys") or [""])[0]
+        nm = norm(c.name).split("::")[-1]
+        if (IDLE_MAP in t0 and t0.startswith("&mut ") and nm in ("remove", "remove_entry", "clear", "retain", "drain", "insert")) or \
+                ("OccupiedEntry<" in t0 and "IdleConnections" in t0 and nm in ("remove", "remove_entry", "insert")):
+            removals.append(c)
+    ctx.floor("PoolInner::pop|list-removal", len(removals), 1, "removal of an (empty) idle list from the map")
+    rb = {c.bb for c in removals}
+    some_list = ("variant", "Some", ((0, ("const", "LIST")),))
+    rows = 0
+    for empty in (True, False):
+        for popped in ("None", "exclusive", "shareable"):
+            pv = ("variant", "None", ()) if popped == "None" else ("variant", "Some", ((0, ("const", "CONN")),))
+            oracles = [(r"IdleConnections.*::is_empty$|Vec.*::is_empty$", lambda site, vals, empty=empty: ("const", "true" if empty else "false")),
+                       (r"IdleConnections.*::len$|Vec.*::len$", lambda site, vals, empty=empty: ("const", "0" if empty else "2")),
+                       (r"IdleConnections.*::pop$", lambda site, vals, pv=pv: pv),
+                       (r"PoolableConnection.*::can_share$", lambda site, vals, popped=popped: ("const", "true" if popped == "shareable" else "false")),
+                       (r"HashMap.*::get_mut$", lambda site, vals: some_list),
+                       (r"HashMap.*::entry$", lambda site, vals: ("variant", "Occupied", ((0, ("const", "ENTRY")),)))]
+            try:
+                outs = AbsPaths(f, oracles=oracles).outcomes(observe_blocks=rb)
+            except AbsPaths.Undecided as e:
+                ctx.undecided("PoolInner::pop|row|empty=%s,popped=%s" % (empty, popped), str(e), f.where())
+                continue
+            rows += 1
+            removed = any(vis for (_, vis) in outs)
+            if not empty:
+                ctx.check(not removed, "PoolInner::pop|row|list-not-empty,popped=%s" % popped,
+                          "while the origin's idle list still holds connections it stays in the map (popped: %s)" % popped,
+                          "the origin's idle list can be removed although it still holds connections (popped: %s): healthy idle connections are destroyed by a look-up" % popped, f.where())
+            else:
+                ctx.ok("PoolInner::pop|row|list-empty,popped=%s" % popped, "empty list: removal %s" % ("happens" if removed else "does not happen"))
+    ctx.floor("PoolInner::pop|table-rows", rows, 6, "scenarios evaluated")
+
+
 RULES = [
+    ("C04.2", C04_2, ["default"]),
     ("P8", pool2.P8, ["default"]),
     ("P9", pool2.P9_aspects("waiters-first", "delivered-or-drained", "payload", "queue-kept"), ["default"]),
     ("P2", pool.P2_aspects("callers", "conn"), ["default"]),
